@@ -27,7 +27,7 @@ def run(ck):
                        "all 2^64 values: lattice + seeded random patterns, not exhaustive"]
     ck.mc("MCLimbs", "C10_limbs.cfg", workers=4, timeout=600)
     exe = vlib.build("san", vlib.harness_sources(), "vh")
-    n = 3000 if thorough else 500
+    n = 30000 if thorough else 500
     tp = os.path.join(ck.dir, "v.ndjson")
     deaths = vlib.run_executions(exe, lambda st: ["c10", "drive", st, n], n, tp, timeout=1200)
     vlib.conformance(ck, "V:lattice-and-random-values", "TraceNumeric", "trace.cfg", tp, deaths, diag_of, min_events=n, timeout=1800,
